@@ -399,6 +399,26 @@ def catch_epochs(tier='quick'):
                     if sorted(out, key=lambda v: -1 if v is None else v) != sorted(exp, key=lambda v: -1 if v is None else v):
                         _fail(fails, 'n=%d failing=%r reshuffle.catch epoch %d' % (n, bad, epoch), 'catch-over-reshuffle', out, exp)
                         return cases, fails
+    # predicates that answer with any python object: lazy and eager filter select by python truthiness, like `if p(x)`
+    preds = {'list ([x] / [])': lambda x: [x] if x % 2 else [], 'equal-length lists': lambda x: [0, 0] if x % 2 else [],
+             'ragged lists': lambda x: [1] * x, '1-tuple holding 0': lambda x: (0,) if x % 2 else (), 'str': lambda x: 'y' if x % 2 else '',
+             'None / object': lambda x: object() if x % 2 else None, 'int': lambda x: x % 3, 'dict': lambda x: {'k': 0} if x % 2 else {},
+             'numpy bool': lambda x: np.bool_(x % 2 == 1), 'float': lambda x: 0.0 if x % 2 else 0.5}
+    for n4 in (1, 4, 6):
+        src4 = lazy_dataset.new({'k%d' % i: i for i in range(n4)})
+        for pname, pr in preds.items():
+            cases += 1
+            want = [x for x in range(n4) if pr(x)]
+            for how, mk in (('filter(p)', lambda: list(src4.filter(pr))), ('filter(p, lazy=False)', lambda: list(src4.filter(pr, lazy=False))),
+                            ('filter(p, lazy=False) of a list dataset', lambda: list(lazy_dataset.new(list(range(n4))).filter(pr, lazy=False)))):
+                try:
+                    got = mk()
+                except Exception as e:      # noqa
+                    got = '%s: %s' % (type(e).__name__, str(e)[:80])
+                if got != want:
+                    _fail(fails, '%s over %d examples, predicate answering with %s' % (how, n4, pname), 'filter-selects-by-truthiness', got, want)
+                    if len(fails) >= 3:
+                        return cases, fails
     # catch() over stages that look examples up by key / index themselves (concatenate, intersperse, slice by keys, key_zip,
     # cache, sort, items): the exception types that user code raises most (KeyError, IndexError, LookupError subclasses,
     # ValueError) are not to be confused with the stage's own lookup failures -- values and items agree  (batch is left out:
@@ -1842,3 +1862,75 @@ def cache_random_histories(tier='quick', kind='memory'):
 
 def cache_random_histories_disk(tier='quick'):
     return cache_random_histories(tier, 'disk')
+
+
+# ------------------------------------------------------------------ stopping while user code is running (C05)
+def _mark_and_sleep(arg):
+    import time
+    d, x = arg
+    open(os.path.join(d, 'started_%d_%d' % (x, os.getpid())), 'w').close()
+    time.sleep(0.4)
+    return x
+
+
+def stop_inside_user_code(tier='quick'):
+    """C05 at the stop points the instant-function searches cannot reach: (a) close() of a single-thread prefetch while the
+    background thread is INSIDE a slow user function (1.5 s): when close() has returned the function has finished, the thread
+    is gone and nothing more is applied; (b) close() of a parallel map over process pools ('multiprocessing',
+    'concurrent_mp', 'mp') with slow jobs queued behind the running ones: the computations that had not started are cancelled
+    (started <= delivered + workers + 1 of 10; + workers + 1 for the call queue of a ProcessPoolExecutor) and none starts after close() has returned."""
+    os.environ.setdefault('OMP_NUM_THREADS', '1')
+    os.environ.setdefault('MKL_NUM_THREADS', '1')
+    import glob
+    import threading
+    import time
+    import lazy_dataset
+    from lazy_dataset.parallel_utils import lazy_parallel_map
+    fails, cases = [], 0
+    for buf in (1, 2):
+        cases += 1
+        log = []
+
+        def load(x):
+            log.append(('start', x))
+            if x == 2:
+                time.sleep(1.5)
+            log.append(('end', x))
+            return x
+        before = set(threading.enumerate())
+        it = iter(lazy_dataset.new(list(range(8))).map(load).prefetch(1, buf))
+        next(it)
+        time.sleep(0.4)                   # the worker is inside the slow example now
+        t0 = time.time()
+        it.close()
+        took = time.time() - t0
+        n0 = len(log)
+        alive = [t for t in threading.enumerate() if t not in before and t.is_alive()]
+        time.sleep(1.8)
+        sc = 'new(range(8)).map(load, 1.5 s for example 2).prefetch(1, %d): close() while the worker is inside the slow example' % buf
+        if len(log) != n0:
+            _fail(fails, sc, 'no-user-code-after-the-stop', 'close() returned after %.2f s; afterwards %r' % (took, log[n0:n0 + 4]), 'nothing')
+        elif alive:
+            _fail(fails, sc, 'background-threads-have-exited', [t.name for t in alive], 'none alive when close() returns')
+    for backend in ('multiprocessing', 'concurrent_mp', 'mp'):
+        cases += 1
+        d = _scratch_dir() + '/stop_%s' % backend
+        os.makedirs(d, exist_ok=True)
+        try:
+            it = iter(lazy_parallel_map(_mark_and_sleep, iter([(d, i) for i in range(10)]), buffer_size=6, max_workers=2, backend=backend))
+            next(it)
+            it.close()
+        except Exception:      # noqa  (backend not usable here)
+            continue
+        s0 = len(glob.glob(d + '/started_*'))
+        time.sleep(1.0)
+        s1 = len(glob.glob(d + '/started_*'))
+        sc = "lazy_parallel_map(slow f, 10 examples, buffer_size=6, max_workers=2, backend=%r): close() after 1 example" % backend
+        # delivered + running + the one a worker may just have picked up; a ProcessPoolExecutor additionally hands
+        # max_workers + 1 queued items to its call queue where they cannot be cancelled any more (executor contract)
+        allowed = 1 + 2 + 1 + (3 if backend == 'concurrent_mp' else 0)
+        if s0 > allowed:
+            _fail(fails, sc, 'computations-not-yet-started-are-cancelled', '%d of 10 applications had started when close() returned' % s0, '<= %d' % allowed)
+        elif s1 != s0:
+            _fail(fails, sc, 'no-user-code-after-the-stop', '%d applications started after close() had returned' % (s1 - s0), 'none')
+    return cases, fails
